@@ -150,38 +150,32 @@ Proof. exact job_keys_distinct. Qed.
 Print Assumptions C16_job_keys_distinct.
 
 (* ---------------------------------------------------------------------------------------------------
-   Statements the faithful model refutes (findings on the real code, replayed by the harness units
-   rechunker_same_dir and merge_hole; see design_notes/C16.md).
-
-   "replace = false leaves the source intact" without the side condition src <> dst of
-   C16_rechunker_preserves (which is the proved part): *)
-Definition C16_full_rechunker_source_intact : Prop :=
+   "replace = false leaves the source intact" for EVERY destination (no side condition src <> dst): holds
+   since /repo's "fix: rechunker refuses a destination that is the source directory". *)
+Theorem C16_rechunker_source_intact :
   forall (bytes : Type) (enc : Z -> list row -> bytes) (dec : Z -> bytes -> option (list row)),
   (forall k rs, dec k (enc k rs) = Some rs) ->
   forall (fs : fsys bytes) src dst tmp comp tgt rechunk s cs,
   src <> tmp -> dst <> tmp -> lookup src fs = Some s -> good dec s cs -> (forall t, tgt = Some t -> 0 < t) ->
   Forall (fun fs' => lookup src fs' = Some s) (fst (rechunker_run enc dec fs src dst tmp false comp tgt rechunk)).
+Proof. exact (@rechunker_source_intact_full). Qed.
+Print Assumptions C16_rechunker_source_intact.
 
-Theorem C16_rechunker_source_intact_partial :
-  forall (bytes : Type) (enc : Z -> list row -> bytes) (dec : Z -> bytes -> option (list row)),
-  (forall k rs, dec k (enc k rs) = Some rs) ->
-  forall (fs : fsys bytes) src dst tmp comp tgt rechunk s cs,
-  src <> dst -> src <> tmp -> dst <> tmp -> lookup src fs = Some s -> good dec s cs ->
-  (forall t, tgt = Some t -> 0 < t) ->
-  Forall (fun fs' => lookup src fs' = Some s) (fst (rechunker_run enc dec fs src dst tmp false comp tgt rechunk)).
-Proof. exact (@rechunker_source_intact). Qed.
-Print Assumptions C16_rechunker_source_intact_partial.
-
-(* a destination that resolves to the source directory itself: the source is removed before it is read *)
-Theorem C16_rechunker_same_dir_refuted :
+(* pinned: the code before that repair (rechunker_unguarded) with a destination that resolves to the source
+   directory removed the source before reading it (replayed by the harness unit rechunker_same_dir, which
+   would fire again if the repair were reverted) *)
+Theorem C16_rechunker_same_dir_pinned :
   exists (fs : fsys C16Run.tbytes) src tmp s cs,
     src <> tmp /\ lookup src fs = Some s /\ good C16Run.tdec s cs /\
-    let '(tr, r) := rechunker_run C16Run.tenc C16Run.tdec fs src src tmp false None None true in
+    let '(tr, r) := rechunker_unguarded C16Run.tenc C16Run.tdec fs src src tmp false None None true in
     r = Err E_NO_CHUNKS /\ visible (last tr fs) src = false /\
     ~ Forall (fun fs' => lookup src fs' = Some s) tr.
 Proof. exact rechunker_same_dir_witness. Qed.
-Print Assumptions C16_rechunker_same_dir_refuted.
+Print Assumptions C16_rechunker_same_dir_pinned.
 
+(* ---------------------------------------------------------------------------------------------------
+   A statement the faithful model refutes (finding on the real code, replayed by the harness unit merge_hole;
+   see design_notes/C16.md). *)
 (* "the merged data goes under the ordinary key only if all chunks of the dependency took part" *)
 Definition C16_full_merge_tag_complete : Prop :=
   forall ndep groups, merge_tag ndep groups = Ok None -> forall i, (i < ndep)%nat -> In i (concat groups).
